@@ -120,7 +120,7 @@ fn arb_form() -> BoxedStrategy<FormCase> {
 }
 
 fn run_forms(ctx: &mut Ctx) {
-    let cases = ctx.share(ctx.tier.pick(80_000, 3_000_000));
+    let cases = ctx.share(ctx.tier.pick(400_000, 4_000_000));
     run_strategy(ctx, "C09", "forms", cases, arb_form(), check_form);
 }
 
@@ -206,7 +206,7 @@ pub fn check_reject(text: &String, obs: &mut Obs) -> Result<(), String> {
 }
 
 fn run_reject(ctx: &mut Ctx) {
-    let cases = ctx.share(ctx.tier.pick(30_000, 1_000_000));
+    let cases = ctx.share(ctx.tier.pick(150_000, 1_500_000));
     let strat = (arb_form(), any::<u16>(), any::<u8>()).prop_filter_map("no place to corrupt", |(f, sel, kind)| {
         let ast = random_path_ast(&f.ch, &f.strs);
         // quoted text must not itself hold brackets or quotes, so that the counting argument is sound
@@ -237,7 +237,7 @@ pub fn check_raw(b: &Bytes, obs: &mut Obs) -> Result<(), String> {
 }
 
 fn run_raw(ctx: &mut Ctx) {
-    let cases = ctx.share(ctx.tier.pick(80_000, 3_000_000));
+    let cases = ctx.share(ctx.tier.pick(400_000, 4_000_000));
     let soup = vec(0..TOKENS.len(), 0..12).prop_map(|ix| Bytes(ix.into_iter().flat_map(|i| TOKENS[i].bytes()).collect()));
     let raw = vec(any::<u8>(), 0..20).prop_map(Bytes);
     // one-byte corruption of a valid rendering
